@@ -15,7 +15,8 @@ R7 = [d for d in rows if rows[d].get("round") == 7]
 R8 = [d for d in rows if rows[d].get("round") == 8]
 R9 = [d for d in rows if rows[d].get("round") == 9]
 R10 = [d for d in rows if rows[d].get("round") == 10]
-R12 = [d for d in rows if d not in R3 and d not in R4 and d not in R5 and d not in R6 and d not in R7 and d not in R8 and d not in R9 and d not in R10]
+R11 = [d for d in rows if rows[d].get("round") == 11]
+R12 = [d for d in rows if d not in R3 and d not in R4 and d not in R5 and d not in R6 and d not in R7 and d not in R8 and d not in R9 and d not in R10 and d not in R11]
 
 
 def table(names):
@@ -43,7 +44,8 @@ out = ["# Seeded breaking changes (written independently by sub-agents)\n",
        "| 7 | 36 | %d | %d | " % (first_contact(R7), sum(1 for d in R7 if not rows[d]["detected_by"].startswith("missed"))) + " ".join(d for d in R7 if rows[d]["detected_by"].startswith("missed")) + " |",
        "| 8 | 36 | %d | %d | " % (first_contact(R8), sum(1 for d in R8 if not rows[d]["detected_by"].startswith("missed"))) + " ".join(d for d in R8 if rows[d]["detected_by"].startswith("missed")) + " |",
        "| 9 | 36 | %d | %d | " % (first_contact(R9), sum(1 for d in R9 if not rows[d]["detected_by"].startswith("missed"))) + " ".join(d for d in R9 if rows[d]["detected_by"].startswith("missed")) + " |",
-       "| 10 | 36 | %d | %d | " % (first_contact(R10), sum(1 for d in R10 if not rows[d]["detected_by"].startswith("missed"))) + " ".join(d for d in R10 if rows[d]["detected_by"].startswith("missed")) + " |\n",
+       "| 10 | 36 | %d | %d | " % (first_contact(R10), sum(1 for d in R10 if not rows[d]["detected_by"].startswith("missed"))) + " ".join(d for d in R10 if rows[d]["detected_by"].startswith("missed")) + " |",
+       "| 11 | 36 | %d | %d | " % (first_contact(R11), sum(1 for d in R11 if not rows[d]["detected_by"].startswith("missed"))) + " ".join(d for d in R11 if rows[d]["detected_by"].startswith("missed")) + " |\n",
        "## Rounds 1 and 2 (18 seeds, one per claimed property)\n",
        "First contact: 4 of 18 (C07-1, C10-1, C14-1, C19-1). For 13 of the 14 misses a structural or relational necessary condition exists and a",
        "rule was added (each run program-wide and read for false reports before arming); C11-1 stays missed (which slots the compaction may drop",
@@ -95,6 +97,14 @@ out += ["\n## Round 10 (36 seeds: the agents chose the kinds themselves - the tw
         "clause of DERIVEDFIELD, GAPFILL for the insert functions, SUMWRAP (limit tests whose sum can wrap) and INITWRITES for C15. 11 stay missed: added",
         "shortcuts and stores that contradict nothing that existed, and choices between two callees or two masks.\n"]
 out += table(R10)
+out += ["\n## Round 11 (36 seeds, free choice again, with the spots of all earlier rounds to be avoided)\n",
+        "First contact: 15 of 36, the best so far; five of them by rules of round 10 (SCANALL) and by RAISEFAIL, FLEXCOPY, ERRFX, ITERPROTO from earlier rounds,",
+        "the others by CONV, NARROW, LINBOUNDS, CODECPAIR, FINALISER, IDENTOVERLAY, CONSTIFACE, MUSTCHECK. Nine more after additions: DETACHRAW (clause of",
+        "DETACHRELEASE: a raw copy out of the old buffer only where its count reached zero), DETACHDEAD (the local handed to detach() is not used after the answer",
+        "went elsewhere), READBASE (behind mpt_message_read(&M, n, buf) nothing is handed M.base with the same n - this also reports C11-5 of round 6), DEADCOPY (no copy",
+        "with a length that is always 0), PARAMCLASS over integer members of pointer parameters, MUSTCHECK for callees whose result the tree tests below zero and with calls",
+        "used as branch operands counted as used, and the identifier rules for the properties whose names are identifiers (C09, C14). 12 stay missed.\n"]
+out += table(R11)
 out.append("\n## Behaviour-preserving refactorings (false-alarm test)\n")
 out.append("Eight further agents produced 40 behaviour-preserving refactorings (renames, loop rewrites, helper extraction, condition restructuring,")
 out.append("temporaries) in the files with the densest rules, each with a differential driver showing identical behaviour. `tools/benign_test.sh` runs")
